@@ -56,7 +56,7 @@ def norm(path):
     return [c for c in path.split('/') if c not in ('', '.')]
 
 
-class ListingError(Exception):
+class ListingError(tree_model.HarnessError):
     pass
 
 
@@ -195,7 +195,7 @@ class Run(tree_model.Run):
                 elif t[0] == 'newhandle':
                     self.hs[int(t[1][1:])] = tree_model.make_handle(t[2])
                 elif t[0] == 'op':
-                    self.op(t[1:])
+                    self.safe_op(t[1:])
                 else:
                     raise ValueError(f'bad scenario line {ln!r}')
         finally:
